@@ -70,9 +70,12 @@ def run(mod, tier, seed, replay=None):
             cases[0]["group"] = int(blob["hashseed"])
     else:
         cases = mod.gen_cases(tier, seed)
+    pin = os.environ.get("VERIF_HASHGROUP")
     for i, c in enumerate(cases):
         c.setdefault("lane", "plain")
         c["idx"] = i
+        if pin in ("0", "1") and "group" not in c:
+            c["group"] = int(pin)          # experiment switch: run every unpinned case under one PYTHONHASHSEED
 
     budget = getattr(mod, "BUDGET_S", {"quick": 900, "thorough": 7200}).get(tier, 900)
     deadline = t_start + budget
